@@ -393,6 +393,8 @@ impl MetadataBlockData {
     /// ```
     pub fn new_unknown(tag: u8, data: &[u8]) -> Result<Self, VerifyError> {
         verify_range!("tag", tag, 0..=126)?;
+        // The block length is stored in a 24-bit field.
+        verify_range!("data.len", data.len(), ..(1usize << 24))?;
         Ok(Self::Unknown {
             typetag: tag,
             data: data.to_owned(),
@@ -1946,6 +1948,7 @@ impl Verbatim {
     /// # }
     /// ```
     pub fn new(samples: &[i32], bits_per_sample: usize) -> Result<Self, VerifyError> {
+        verify_block_size!("samples.len", samples.len())?;
         verify_bps!("bits_per_sample", bits_per_sample)?;
         for v in samples {
             verify_sample_range!("samples", *v, bits_per_sample)?;
